@@ -36,7 +36,9 @@ GInit ==
 IdRenderings == <<"small", "wide">>
 IdRendering == IdRenderings[((Len(added) + Len(hist) + start) % 2) + 1]
 \* How the sessions of a behaviour are started: through the factory methods (create / open / append) or through the
-\* public constructor with the mode given as FileMode member or as its plain string value; one form per behaviour
+\* public constructor with the mode given as FileMode member or as its plain string value; one form per behaviour.
+\* (The second form also leaves its sessions the way a `with` block does, the third hands indices and identifiers
+\* over as numpy integers: forms of the same calls.)
 EntryForms == <<"factory", "constructor", "constructor_str">>
 EntryForm == EntryForms[((Len(added) + 2 * Len(hist) + start) % 3) + 1]
 Rec == [ev |-> last', n |-> Len(added'), ix |-> indexable']
